@@ -473,6 +473,19 @@ SCHED_SCRIPTS = [
 ]
 
 
+# a new channel opened from the 'close' handler of an older one, whose two halves were closed at the same time (the
+# answers to both Disconnection Requests are still in flight when the identifier is used again)
+REOPEN_SCRIPTS = [
+    {'links': 1, 'ops': [['open', kind, 1, side, var], ['par', ['close', 0, 'client'], ['close', 0, 'server'], ['open', kind, 1, side, var, {'on_close_of': 0}]], ['open', kind, 1, side, var]]}
+    for kind, var in (('cl', 0), ('le', 0), ('ec', 1))
+    for side in ('c', 'p')
+] + [
+    {'links': 1, 'ops': [['open', kind, 1, 'c', var], ['par', ['close', 0, by], ['open', kind, 1, 'c', var, {'on_close_of': 0}]], ['open', kind, 1, 'p', var]]}
+    for kind, var in (('cl', 0), ('le', 0), ('ec', 1))
+    for by in ('client', 'server')
+]
+
+
 def run_sched(params, prefix, fp):
     sched = explore.Sched(prefix, hold=True, expect_fp=fp)
     res = run_case(params, sched=sched)
@@ -504,6 +517,7 @@ def run(ctx: core.Context) -> int:
         sched_bound, sched_scripts = 1, SCHED_SCRIPTS
     plan['cancel'] = None
     plan['churn'] = None
+    plan['reopen'] = None
     sizes = {}
     for name, parts in plan.items():
         if only and name not in only:
@@ -512,6 +526,9 @@ def run(ctx: core.Context) -> int:
         if name == 'churn':
             links = 1
             scripts = churn_scripts(quick)
+        elif name == 'reopen':
+            links = 1
+            scripts = [x['ops'] for x in REOPEN_SCRIPTS]
         elif name == 'cancel':
             links = 1
             counts = open_message_counts()
@@ -539,6 +556,8 @@ def run(ctx: core.Context) -> int:
         st = ctx.sub('sched')
         for i, params in enumerate(sched_scripts):
             explore.explore(run_sched, params, sched_bound, ctx.jobs, st, label=f's{i}:')
+        for i, params in enumerate(REOPEN_SCRIPTS if not quick else REOPEN_SCRIPTS[:6]):
+            explore.explore(run_sched, params, sched_bound, ctx.jobs, st, label=f'r{i}:')
         ctx.log('sched:', st.summary())
     return core.finish(
         ctx,
